@@ -20,7 +20,8 @@ func C01(c *Ctx) int {
 	var ps []*prog.Program
 	for i := 0; i < n; i++ {
 		f := gen.Features{Xor: true, And: true, Or: i%3 == 0, Loop: i%4 == 1, CondFlow: i%5 == 2, Sub: false,
-			NoDefault: i%7 == 3, EndInBranch: i%6 == 4, MaxDepth: 3 + i%2, MaxSize: 4 + i%6, MaxBranch: 2 + i%2}
+			NoDefault: i%7 == 3, EndInBranch: i%6 == 4, MaxDepth: 3 + i%2, MaxSize: 4 + i%6, MaxBranch: 2 + i%2,
+			EmptyBranch: i%4 == 2, OlderVar: i%3 == 1, Throws: i%5 == 3}
 		ps = append(ps, gen.Random(fmt.Sprintf("c01_%d_%d", c.Seed, i), c.Seed*1000+int64(i), f))
 	}
 	if err := c.TokenGameRound(fs, ps, RoundOpts{Label: "c01", MaxSteps: 10, MaxPerProg: 12}); err != nil {
